@@ -271,6 +271,12 @@ func MeaningOf(p Program, cfg Config) (Meaning, error) {
 				equ[l] = it.Expr
 			}
 		case KOrg:
+			for _, l := range it.Labels {
+				if err := def(l); err != nil {
+					return m, err
+				}
+				labels[l] = n
+			}
 			startExpr = it.Expr
 		case KEnd:
 			for _, l := range it.Labels {
